@@ -7,7 +7,7 @@ CONFIG = {
         # 16 shards always: the harness splits the bounded-exhaustive enumeration by shard index
         # (quick: every token-kind sequence of length <= 4 over the 21-kind alphabet = 204,205 inputs;
         #  thorough: length <= 5 = 4,288,306), the rest of n is the seeded random part.
-        "n": {"quick": 16 * 21000, "thorough": 16 * 300000, "search": 16 * 20000},
+        "n": {"quick": 16 * 30000, "thorough": 16 * 300000, "search": 16 * 20000},
         "shards": {"quick": 16, "thorough": 16, "search": 16},
         "flush": True, "crash_signature": "parse-crash-or-timeout",
         "timeout_s": 3000, "driver_timeout_s": 3000,
